@@ -499,7 +499,7 @@ def gen_repeats(rng, part, profile):
     ms = part["measures"]
     n = len(ms)
     bounds = [m["s"] for m in ms] + [ms[-1]["e"]]
-    shape = rng.choice(("simple", "simple2", "volta", "volta3", "dacapo", "dalsegno", "volta+simple", "coda")) if profile == "unfold" else rng.choice(("simple", "volta"))
+    shape = rng.choice(("simple", "simple2", "volta", "volta3", "dacapo", "dalsegno", "volta+simple", "coda", "simple+dacapo", "volta+dacapo")) if profile == "unfold" else rng.choice(("simple", "volta"))
     part["repeat_shape"] = shape
 
     def rep(a, b):
@@ -547,6 +547,29 @@ def gen_repeats(rng, part, profile):
         part["nav"].append({"cls": "DaCapo", "t": bounds[n]})
         if k < n and rng.random() < 0.7:
             part["nav"].append({"cls": "Fine", "t": bounds[k]})
+    elif shape == "simple+dacapo":
+        # |: A :| B  D.C. (al Fine): a choice point before the leap
+        if n >= 2:
+            b = rng.randrange(1, n)
+            a = rng.randrange(0, b)
+            rep(a, b)
+            part["nav"].append({"cls": "DaCapo", "t": bounds[n]})
+            if rng.random() < 0.7:
+                part["nav"].append({"cls": "Fine", "t": bounds[rng.randrange(b, n)]})
+        else:
+            rep(0, 1)
+    elif shape == "volta+dacapo":
+        if n >= 4:
+            a = rng.randrange(0, n - 3)
+            v1 = rng.randrange(a + 1, n - 2)
+            rep(a, v1 + 1)
+            ending(v1, v1 + 1, 1)
+            ending(v1 + 1, v1 + 2, 2)
+            part["nav"].append({"cls": "DaCapo", "t": bounds[n]})
+            if rng.random() < 0.7:
+                part["nav"].append({"cls": "Fine", "t": bounds[rng.randrange(v1 + 2, n)]})
+        else:
+            rep(0, n)
     elif shape == "dalsegno":
         if n >= 2:
             sg = rng.randrange(0, n - 1)
